@@ -193,7 +193,12 @@ def run(cx, out):
     out.rule('W17.3', 'type-level witnesses: DecodeFinished cannot be forged; marker traits are enforced')
     # the artefacts come from the corpus fixture build of the current tree
     cx.need(['D'])
-    fx, defs = c05.corpus_facts(cx)
+    from .. import facts as _fm
+    try:
+        fx, defs = c05.corpus_facts(cx, need_artefacts=True)
+    except _fm.BuildError as e:
+        out.fail('W17.2', 'derive corpus compiles', 'valid input is rejected: a definition of the derive corpus no longer compiles: %s' % c05._first_error(str(e)), 'corpus')
+        return
     progs = gen_enum_programs(cx.tier, cx.seed) + gen_count_programs() + gen_attr_programs()
     witness.run_programs(progs, cx.tier)
     out.units.add('witness programs (rustc --emit=metadata) against artefacts of the current tree')
